@@ -303,14 +303,14 @@ fn check_pure(c: &PureCase) -> Verdict {
 }
 
 fn groups(g: &mut Groups) {
-    g.prop("twin", 6_000, 300_000, case(), check_case);
-    g.prop("cli", 400, 10_000, case(), check_cli);
+    g.prop("twin", 12_000, 300_000, || case(), check_case);
+    g.prop("cli", 800, 10_000, || case(), check_cli);
     let word = || prop_oneof![Just("a".to_string()), Just("b".to_string()), Just("ab".to_string()), Just("c::a".to_string()), Just("c::ab::1".to_string()), Just("x".to_string()), "[abc:]{0,6}"];
     g.prop(
         "filter_set",
-        60_000,
+        120_000,
         3_000_000,
-        (proptest::collection::vec((any::<bool>(), any::<bool>(), word()), 0..=8), proptest::collection::vec(word(), 1..=8)).prop_map(|(filters, paths)| PureCase { filters, paths }),
+        || (proptest::collection::vec((any::<bool>(), any::<bool>(), word()), 0..=8), proptest::collection::vec(word(), 1..=8)).prop_map(|(filters, paths)| PureCase { filters, paths }),
         check_pure,
     );
 }
